@@ -390,10 +390,20 @@ def make_case(r, tree, env, layout=0, nesting=0, description=None, placement=Non
     """Distribute the free names over condition parameters / closure / globals and build the call."""
     free = sorted(n for n in set(names_in(tree)) | set(force) if n in env or (n not in BUILTINS and n not in HELPERS))
     cond_params, closure, globs = [], [], []
+    # CPython >= 3.12 inlines list/dict comprehensions: their loop variable becomes a local of the lambda, so a
+    # closure or global variable of the same name used elsewhere in the condition is no longer reachable
+    # (UnboundLocalError when the condition itself runs).  Such names are parameters here (reading N9).
+    inlined = set()
+    for node in X.subexprs(tree):
+        if node[0] == "comp" and node[1] != "gen":
+            for names, _t, _it, _ifs in node[4]:
+                inlined |= set(names)
     for n in free:
         if n in ("tmp", "acc") and n not in env:
             continue
         where = (placement or {}).get(n) or r.choice(["param", "param", "param", "closure", "global"])
+        if n in inlined:
+            where = "param"
         if n in ("_ARGS", "_KWARGS"):
             where = "param"
         {"param": cond_params, "closure": closure, "global": globs}[where].append(n)
@@ -406,14 +416,24 @@ def make_case(r, tree, env, layout=0, nesting=0, description=None, placement=Non
     if not func_params:
         func_params.append("unused")
         args.append(["unused", 0])
+    # the same name bound in an outer scope as well, with another value: the inner binding must win
+    known_types = set(INT_VARS + BOOL_VARS + LIST_VARS + STR_VARS + OPT_VARS + REC_VARS + DICT_VARS)
+    decoy_closure, decoy_globals = [], []
+    for n in cond_params:
+        if n in known_types and r.random() < 0.12:
+            (decoy_closure if r.random() < 0.4 else decoy_globals).append([n, rand_value(r, n)])
+    for n in closure:
+        if n in known_types and r.random() < 0.15:
+            decoy_globals.append([n, rand_value(r, n)])
     case = {"tree": tree, "cond_params": cond_params, "func_params": func_params, "args": args,
-            "closure": [[n, env[n]] for n in closure],
-            "globals": [[n, env[n]] for n in globs] + [[h, {"fn": h}] for h in HELPERS],
+            "closure": [[n, env[n]] for n in closure] + decoy_closure,
+            "globals": [[n, env[n]] for n in globs] + decoy_globals + [[h, {"fn": h}] for h in HELPERS],
             "layout": layout, "nesting": nesting, "description": description}
     known = set(INT_VARS + BOOL_VARS + LIST_VARS + STR_VARS + OPT_VARS + REC_VARS + DICT_VARS)
-    if closure and all(n in known for n in closure) and r.random() < 0.35:
+    cnames = [n for n, _ in case["closure"]]
+    if cnames and all(n in known for n in cnames) and r.random() < 0.35:
         # the same contract was violated before, while the enclosing scope held other values
-        case["warmup_closure"] = [[n, rand_value(r, n)] for n in closure]
+        case["warmup_closure"] = [[n, rand_value(r, n)] for n in cnames]
     if kw_order:
         order = list(func_params)
         r.shuffle(order)
